@@ -1,8 +1,9 @@
 #!/bin/sh
 # tools/mutp.sh <property> <patchfile> [-R] [-- extra check args]: apply a patch to a scratch source copy of /repo, run the check against it
-[ "$MREPO_LOCKED" = 1 ] || { export MREPO_LOCKED=1; exec flock /tmp/mrepo.lock "$0" "$@"; }
+M=${MREPO:-/tmp/mrepo}; B=${MBUILD:-/tmp/vt/build}; V=$(cd "$(dirname "$0")/.." && pwd)
+[ "$MREPO_LOCKED" = 1 ] || { export MREPO_LOCKED=1; exec flock $M.lock "$0" "$@"; }
 P=$1; PATCH=$2; shift 2
 REV=""; if [ "$1" = "-R" ]; then REV="-R"; shift; fi
-rm -rf /tmp/mrepo; rsync -a --exclude target --exclude .git /repo/ /tmp/mrepo/
-(cd /tmp/mrepo && patch -p1 $REV -s < $PATCH) || { echo "PATCH FAILED"; exit 3; }
-cd /verif && VERIF_REPO=/tmp/mrepo VERIF_BUILD=/tmp/vt/build ./check $P --no-evidence "$@" 2>&1 | grep -v "^  site" | cut -c1-300
+rm -rf $M; rsync -a --exclude target --exclude .git /repo/ $M/
+(cd $M && patch -p1 $REV -s < $PATCH) || { echo "PATCH FAILED"; exit 3; }
+cd $V && VERIF_REPO=$M VERIF_BUILD=$B ./check $P --no-evidence "$@" 2>&1 | grep -v "^  site" | cut -c1-300
